@@ -255,6 +255,8 @@ func checkC20(res *Result) {
 			res.bad("C20-R4", fname(fn), p.pos(fn), "the value is read from the Database once", fmt.Sprintf("%d Get calls", len(gets)))
 		}
 	}
+	res.Rule("C20-R5", "'later duplicates of an id': the id by which inbox items are compared is the one notion of identity of the library — GetId: JSON-LD id first, href only without one; ToId: GetId of an embedded value or the IRI (shared with C06-R7)")
+	checkIdentity(res, p, "C20-R5")
 	res.Assumptions = append(res.Assumptions, "net/http sends headers set before WriteHeader and ignores later ones", "value flow is an over-approximation")
 	res.Undecided = []string{"that Serialize's output equals the value (C01)", "time-zone arithmetic inside time.Time"}
 	res.Trusted = []string{"go/types, go/ssa (x/tools v0.29.0)", "e1_effects.go, e2_facts.go, e4_flow.go"}
